@@ -960,7 +960,22 @@ func evalVerifyOwner(p core.Params) (line, impl string) {
 		}
 		return body
 	}
-	_, terr := e.TO2(ctx, fx.dev, to1d, fx.dev.TO2Config(env.DefaultKex(cf.spec), kex.A128GcmCipher))
+	// the device's own side of the agreement: a credential naming another manufacturer key, or another HMAC secret
+	tdev := fx.dev
+	switch p["alt"] {
+	case "cred:keyhash":
+		d2, c2 := *fx.dev, *fx.dev.Cred
+		c2.PublicKeyHash.Value = bytes.Clone(c2.PublicKeyHash.Value)
+		c2.PublicKeyHash.Value[0] ^= 1
+		d2.Cred = &c2
+		tdev = &d2
+	case "cred:secret":
+		d2 := *fx.dev
+		d2.Secret = bytes.Clone(d2.Secret)
+		d2.Secret[0] ^= 1
+		tdev = &d2
+	}
+	_, terr := e.TO2(ctx, tdev, to1d, tdev.TO2Config(env.DefaultKex(cf.spec), kex.A128GcmCipher))
 	e.RT.Hook, e.RT.RespHook = nil, nil
 	if terr != nil {
 		run.err = terr.Error()
@@ -977,9 +992,32 @@ func evalVerifyOwner(p core.Params) (line, impl string) {
 		return devKind, "err-hello-decode " + err.Error()
 	}
 	var sb strings.Builder
-	kh := fx.dev.Cred.PublicKeyHash
-	fmt.Fprintf(&sb, "%s b:%x z:%s b:%x b:%x b:%x n:1 (n:%x b:%x) (", devKind, fx.dev.Secret, zhex(int64(kh.Algorithm)), kh.Value, hello,
-		hm.NonceTO2ProveOV[:], run.d61.typ, run.d61.body)
+	kh := tdev.Cred.PublicKeyHash
+	// the fact kex_ok: the configured suite is valid and available AND the owner's key-exchange parameter, as delivered, is
+	// one the device can answer (a malformed xA makes the device fail while computing its own parameter, before 64 is sent)
+	kexok := 1
+	func() {
+		defer func() {
+			if recover() != nil {
+				kexok = 0
+			}
+		}()
+		var m61 cose.Sign1Tag[devOVHProofXA, []byte]
+		if cbor.NewDecoder(bytes.NewReader(run.d61.body)).Decode(&m61) != nil || m61.Payload == nil {
+			return // the model aborts on its own account
+		}
+		sess := env.DefaultKex(cf.spec).New(bytes.Clone(m61.Payload.Val.KeyExchangeA), kex.A128GcmCipher)
+		if sess == nil {
+			kexok = 0
+			return
+		}
+		rsaOwner, _ := env.Key(cf.spec, "owner").Public().(*rsa.PublicKey)
+		if _, err := sess.Parameter(rand.Reader, rsaOwner); err != nil {
+			kexok = 0
+		}
+	}()
+	fmt.Fprintf(&sb, "%s b:%x z:%s b:%x b:%x b:%x n:%d (n:%x b:%x) (", devKind, tdev.Secret, zhex(int64(kh.Algorithm)), kh.Value, hello,
+		hm.NonceTO2ProveOV[:], kexok, run.d61.typ, run.d61.body)
 	for i, m := range run.d63 {
 		if i > 0 {
 			sb.WriteByte(' ')
@@ -1077,6 +1115,8 @@ func RunC01(c *core.Ctx) {
 				detail += ": " + r.err
 			}
 			c.Fail("honest-owner-refused:"+cf.spec.Name, detail, devKind, p, o)
+		case strings.HasPrefix(alt, "cred:") && o.Impl == "accept":
+			c.Fail("wrong-credential-accepted:"+alt+":"+cf.spec.Name, "the device sent ProveDevice although its credential / secret does not match the voucher it was shown", devKind, p, o)
 		case alt != "none" && o.Impl == "accept" && p["mode"] != "d" && r != nil:
 			if r.sameContent() {
 				c.Count("accepted_with_same_content", class+" "+r.rawDiff())
@@ -1135,6 +1175,8 @@ func RunC01(c *core.Ctx) {
 				if o.Impl != "accept" || hr == nil {
 					continue
 				}
+				try(cf, "cred:keyhash", a("alt", "cred:keyhash"))
+				try(cf, "cred:secret", a("alt", "cred:secret"))
 				// 61, byte level
 				try(cf, "61:trunc", a("alt", "61:trunc"))
 				try(cf, "61:append", a("alt", "61:append", "arg", 0))
@@ -1201,4 +1243,17 @@ func RunC01(c *core.Ctx) {
 		}
 		c.Note("%s enc %d: %d cases in %.1f s", k.spec.Name, k.enc, c.Rep.Evaluations-n0, time.Since(t0).Seconds())
 	}
+}
+
+
+// devOVHProofXA: the ProveOVHdr payload, for reading the key-exchange parameter only.
+type devOVHProofXA struct {
+	OVH             cbor.RawBytes
+	NumOVEntries    uint8
+	OVHHmac         cbor.RawBytes
+	NonceTO2ProveOV cbor.RawBytes
+	SigInfoB        cbor.RawBytes
+	KeyExchangeA    []byte
+	HelloDeviceHash cbor.RawBytes
+	MaxOwnerMsgSize cbor.RawBytes
 }
